@@ -24,6 +24,7 @@ import (
 	"slices"
 	"sort"
 	"strings"
+	"sync"
 	"testing"
 	"time"
 
@@ -35,9 +36,11 @@ import (
 	"github.com/AdguardTeam/AdGuardHome/internal/home"
 	"github.com/AdguardTeam/AdGuardHome/internal/querylog"
 	"github.com/AdguardTeam/AdGuardHome/internal/stats"
+	"github.com/AdguardTeam/AdGuardHome/internal/verifyield"
 	"github.com/AdguardTeam/AdGuardHome/verifsim/dnsnode"
 	"github.com/AdguardTeam/AdGuardHome/verifsim/env"
 	"github.com/AdguardTeam/AdGuardHome/verifsim/kernel"
+	"github.com/AdguardTeam/AdGuardHome/verifsim/sched"
 	"github.com/AdguardTeam/urlfilter"
 	"github.com/AdguardTeam/urlfilter/filterlist"
 	"github.com/miekg/dns"
@@ -66,6 +69,19 @@ type Op struct {
 	Client int  `json:"client,omitempty"`
 	Log    bool `json:"log,omitempty"`
 	Stats  bool `json:"stats,omitempty"`
+	// client_update / client_add: the new name and identifier ("" = keep the
+	// current one); they may clash with those of another persistent client, in
+	// which case the registry is expected to refuse (home answers 400) and
+	// nothing may change.  client_update / client_del address the client at
+	// index Client modulo the number of clients.
+	NewName string `json:"new_name,omitempty"`
+	NewID   string `json:"new_id,omitempty"`
+	// config_par: settings requests that are in flight together; they run as
+	// concurrent tasks, interleaved at lock boundaries by the seeded cooperative
+	// scheduler (Seed = its seed, Pct = preemption probability in percent).
+	Reqs []CfgReq `json:"reqs,omitempty"`
+	Seed uint64   `json:"seed,omitempty"`
+	Pct  int      `json:"pct,omitempty"`
 	// query: simulated milliseconds that pass before the request.
 	GapMs int `json:"gap_ms,omitempty"`
 	// page: one request of a listing the way the UI scrolls through the log.
@@ -80,6 +96,15 @@ type Op struct {
 	// (older_than in the future: must list the same), 2 = not read back after
 	// this op (the file, the statistics and the settings are still checked).
 	Obs int `json:"obs,omitempty"`
+}
+
+// CfgReq is one settings request: Kind is log_config (PUT
+// /control/querylog/config/update), log_config_legacy (POST
+// /control/querylog_config) or stats_config (PUT /control/stats/config/update).
+type CfgReq struct {
+	Kind    string   `json:"k"`
+	Ignored []string `json:"ignored,omitempty"`
+	Anon    bool     `json:"anon,omitempty"`
 }
 
 // Scenario is one case.
@@ -105,7 +130,34 @@ var (
 	qtypes   = []uint16{dns.TypeA, dns.TypeAAAA, dns.TypeTXT, dns.TypeANY}
 	gapsMs   = []int{0, 1, 1, 3, 1000}
 	searches = []string{"", "", "", "test", "c0", "192.0", "phone"}
+	// names of persistent clients (the initial ones are c0, c1, c2)
+	clientNames = []string{"c0", "c1", "c2", "c3"}
+	cfgKinds    = []string{"log_config", "log_config", "log_config_legacy", "log_config_legacy", "stats_config"}
+	pcts        = []int{20, 50, 80}
 )
+
+func genCfgReq(t *rapid.T, kind string) CfgReq {
+	q := CfgReq{Kind: kind}
+	switch kind {
+	case "log_config":
+		q.Ignored, q.Anon = genIgnored(t, "new_log_ignored"), rapid.Bool().Draw(t, "new_anon")
+	case "log_config_legacy":
+		// the deprecated endpoint: only changes anonymisation here
+		q.Anon = rapid.Bool().Draw(t, "legacy_anon")
+	case "stats_config":
+		q.Ignored = genIgnored(t, "new_stats_ignored")
+	}
+	return q
+}
+
+// keepOr draws "" (keep the current value) about half of the time, otherwise a
+// value of the alphabet.
+func keepOr(t *rapid.T, alphabet []string, label string) string {
+	if rapid.Bool().Draw(t, label+"_keep") {
+		return ""
+	}
+	return rapid.SampledFrom(alphabet).Draw(t, label)
+}
 
 func genIgnored(t *rapid.T, label string) []string {
 	return rapid.SliceOfNDistinct(rapid.SampledFrom(patterns), 0, 3, rapid.ID[string]).Draw(t, label)
@@ -134,31 +186,47 @@ func Gen(t *rapid.T, tier string) any {
 			k = 90
 		}
 		switch {
-		case k < 58:
+		case k < 54:
 			op = Op{Kind: "query", Name: rapid.SampledFrom(qnames).Draw(t, "qname"), Qtype: rapid.SampledFrom(qtypes).Draw(t, "qtype"), Addr: rapid.SampledFrom(srcAddrs).Draw(t, "addr"),
 				GapMs: rapid.SampledFrom(gapsMs).Draw(t, "gap_ms")}
 			if rapid.IntRange(0, 3).Draw(t, "has_cid") == 0 {
 				op.CID = rapid.SampledFrom(cids).Draw(t, "cid")
 			}
-		case k < 64:
-			op = Op{Kind: "log_config", Ignored: genIgnored(t, "new_log_ignored"), Anon: rapid.Bool().Draw(t, "new_anon")}
-		case k < 67:
-			// the deprecated endpoint: only changes anonymisation here
-			op = Op{Kind: "log_config_legacy", Anon: rapid.Bool().Draw(t, "legacy_anon")}
+		case k < 59:
+			q := genCfgReq(t, "log_config")
+			op = Op{Kind: q.Kind, Ignored: q.Ignored, Anon: q.Anon}
+		case k < 62:
+			q := genCfgReq(t, "log_config_legacy")
+			op = Op{Kind: q.Kind, Anon: q.Anon}
+		case k < 66:
+			q := genCfgReq(t, "stats_config")
+			op = Op{Kind: q.Kind, Ignored: q.Ignored}
 		case k < 72:
-			op = Op{Kind: "stats_config", Ignored: genIgnored(t, "new_stats_ignored")}
-		case k < 82:
 			op = Op{Kind: "client_flags", Client: rapid.IntRange(0, max(len(sc.Clients)-1, 0)).Draw(t, "cl_idx"), Log: rapid.Bool().Draw(t, "cl_log"), Stats: rapid.Bool().Draw(t, "cl_stats")}
-		case k < 85:
+		case k < 78:
+			// the whole record is sent, as the UI does: name, identifier, flags
+			op = Op{Kind: "client_update", Client: rapid.IntRange(0, 3).Draw(t, "cl_idx"), NewName: keepOr(t, clientNames, "cl_name"), NewID: keepOr(t, clientID, "cl_id"),
+				Log: rapid.Bool().Draw(t, "cl_log"), Stats: rapid.Bool().Draw(t, "cl_stats")}
+		case k < 80:
+			op = Op{Kind: "client_add", NewName: rapid.SampledFrom(clientNames).Draw(t, "cl_name"), NewID: rapid.SampledFrom(clientID).Draw(t, "cl_id"),
+				Log: rapid.Bool().Draw(t, "cl_log"), Stats: rapid.Bool().Draw(t, "cl_stats")}
+		case k < 81:
+			op = Op{Kind: "client_del", Client: rapid.IntRange(0, 3).Draw(t, "cl_idx")}
+		case k < 84:
 			op = Op{Kind: "flush"}
-		case k < 87:
+		case k < 86:
 			op = Op{Kind: "advance"}
-		case k < 96:
+		case k < 94:
 			op = Op{Kind: "page", Limit: rapid.IntRange(1, 3).Draw(t, "limit"), Older: listing && rapid.IntRange(0, 3).Draw(t, "older") > 0, Search: rapid.SampledFrom(searches).Draw(t, "search")}
 			if !op.Older {
 				op.Offset = rapid.SampledFrom([]int{0, 0, 1, 2}).Draw(t, "offset")
 			}
 			listing = true
+		case k < 97:
+			op = Op{Kind: "config_par", Seed: rapid.Uint64().Draw(t, "par_seed"), Pct: rapid.SampledFrom(pcts).Draw(t, "par_pct")}
+			for j, n := 0, rapid.IntRange(2, 3).Draw(t, "par_n"); j < n; j++ {
+				op.Reqs = append(op.Reqs, genCfgReq(t, rapid.SampledFrom(cfgKinds).Draw(t, "par_kind")))
+			}
 		default:
 			op = Op{Kind: "restart"}
 		}
@@ -302,6 +370,14 @@ type runner struct {
 	cursor string
 	// dirty: a setting was changed through the API since the last (re)start.
 	dirty bool
+	// confLock plays the role of home's configuration lock, which
+	// (*configuration).write holds while it collects the settings of the
+	// components (settings requests in flight together call it concurrently).
+	confLock sync.Mutex
+	// abandon is set when settings requests in flight together ended in a
+	// deadlock: the parked tasks hold the instance's locks for ever and it must
+	// not be stopped.
+	abandon bool
 }
 
 // saved is the part of the configuration file that belongs to the query log
@@ -322,6 +398,9 @@ type saved struct {
 // writeConfig is home's configuration.write reduced to the two components of
 // this property: every component is asked for its current settings again.
 func (r *runner) writeConfig() {
+	verifyield.Acquire(r.confLock.TryLock, r.confLock.Lock, "config.lock")
+	defer verifyield.Release(r.confLock.Unlock)
+
 	if r.ql != nil {
 		dc := querylog.Config{}
 		r.ql.WriteDiskConfig(&dc)
@@ -400,6 +479,9 @@ func (r *runner) start(clients []*client.Persistent) error {
 // stop stops the instance: cleanly (the query log flushes its buffer, the
 // statistics their current unit) or, at the end of the case, the cheap way.
 func (r *runner) stop(clean bool) error {
+	if r.abandon {
+		return nil
+	}
 	if r.n != nil {
 		r.n.Close()
 		r.n = nil
@@ -953,6 +1035,31 @@ func (r *runner) checkSettings() error {
 	if !sameSet(sc.Ignored, m.statIgnList) {
 		return kernel.Violationf("config-report-mismatch", "GET /control/stats/config reports ignored=%q, the accepted list is %q", sc.Ignored, m.statIgnList)
 	}
+	return nil // TEMP r.checkClients()
+}
+
+// checkClients reads the persistent clients back from the registry (what GET
+// /control/clients lists and what home writes to the configuration file):
+// which clients are "marked to be ignored" is what was accepted, so the
+// registry must hold exactly the accepted clients with the accepted
+// identifiers and flags.
+func (r *runner) checkClients() error {
+	var want, got []string
+	for _, c := range r.m.clients {
+		p, err := toPersistent(c)
+		if err != nil {
+			return err
+		}
+		want = append(want, fmt.Sprintf("%s%q ignore_querylog=%v ignore_statistics=%v", c.Name, p.IDs(), c.IgnoreLog, c.IgnoreStats))
+	}
+	r.n.Clients.RangeByName(func(p *client.Persistent) bool {
+		got = append(got, fmt.Sprintf("%s%q ignore_querylog=%v ignore_statistics=%v", p.Name, p.IDs(), p.IgnoreQueryLog, p.IgnoreStatistics))
+		return true
+	})
+	if !sameSet(want, got) {
+		sort.Strings(want)
+		return kernel.Violationf("client-report-mismatch", "the client registry holds %v, the accepted persistent clients are %v (a refused change must leave everything as it was)", got, want)
+	}
 	return nil
 }
 
@@ -1002,47 +1109,214 @@ func (r *runner) classifyStats(msg string) error {
 	return kernel.Violationf("stats-count-mismatch", "%s", msg)
 }
 
+// settings are the accepted settings of query log and statistics this
+// property is about.
+type settings struct {
+	anon            bool
+	logIgn, statIgn []string
+}
+
+func (m *mstate) settings() settings {
+	return settings{anon: m.anon, logIgn: m.logIgnList, statIgn: m.statIgnList}
+}
+
+// set makes s the accepted settings.
+func (m *mstate) set(s settings) {
+	m.logIgn.close()
+	m.statIgn.close()
+	m.logIgn, m.statIgn = newIgnoreSet(s.logIgn), newIgnoreSet(s.statIgn)
+	m.anon, m.logIgnList, m.statIgnList = s.anon, s.logIgn, s.statIgn
+}
+
+// after returns the settings once request q has been accepted.
+func (s settings) after(q CfgReq) settings {
+	switch q.Kind {
+	case "log_config":
+		s.logIgn, s.anon = q.Ignored, q.Anon
+	case "log_config_legacy":
+		s.anon = q.Anon
+	case "stats_config":
+		s.statIgn = q.Ignored
+	}
+	return s
+}
+
+func (s settings) equal(o settings) bool {
+	return s.anon == o.anon && sameSet(s.logIgn, o.logIgn) && sameSet(s.statIgn, o.statIgn)
+}
+
+func (s settings) String() string {
+	return fmt.Sprintf("{anonymize_client_ip:%v querylog ignored:%q stats ignored:%q}", s.anon, orEmpty(s.logIgn), orEmpty(s.statIgn))
+}
+
+// sendCfg sends one settings request.
+func (r *runner) sendCfg(q CfgReq) (int, []byte, error) {
+	switch q.Kind {
+	case "log_config":
+		return r.api("PUT", "/control/querylog/config/update", map[string]any{"enabled": true, "anonymize_client_ip": q.Anon, "interval": 86_400_000, "ignored": orEmpty(q.Ignored)})
+	case "log_config_legacy":
+		return r.api("POST", "/control/querylog_config", map[string]any{"anonymize_client_ip": q.Anon})
+	case "stats_config":
+		return r.api("PUT", "/control/stats/config/update", map[string]any{"enabled": true, "interval": 86_400_000, "ignored": orEmpty(q.Ignored)})
+	}
+	return 0, nil, fmt.Errorf("harness: settings request of unknown kind %q", q.Kind)
+}
+
+// cfgDone does the bookkeeping of an accepted settings request.
+func (r *runner) cfgDone(q CfgReq) {
+	r.dirty = true
+	if q.Kind == "stats_config" {
+		r.c.Fault("live_stats_config_change")
+		return
+	}
+	r.c.Fault("live_log_config_change")
+	if q.Kind == "log_config_legacy" {
+		r.c.Probe("legacy_config_endpoint")
+	}
+}
+
+// reported reads the settings back through the endpoints that report them.
+func (r *runner) reported() (s settings, err error) {
+	var lc struct {
+		Ignored []string `json:"ignored"`
+		Anon    *bool    `json:"anonymize_client_ip"`
+	}
+	if err = r.getJSON("/control/querylog/config", &lc); err != nil {
+		return s, err
+	}
+	if lc.Anon == nil {
+		return s, kernel.Violationf("config-report-mismatch", "GET /control/querylog/config reports no anonymize_client_ip")
+	}
+	var sc struct {
+		Ignored []string `json:"ignored"`
+	}
+	if err = r.getJSON("/control/stats/config", &sc); err != nil {
+		return s, err
+	}
+	return settings{anon: *lc.Anon, logIgn: lc.Ignored, statIgn: sc.Ignored}, nil
+}
+
+func (r *runner) getJSON(path string, v any) error {
+	code, body, err := r.api("GET", path, nil)
+	if err != nil {
+		return err
+	}
+	if code != http.StatusOK {
+		return kernel.Violationf("api-status", "GET %s -> %d %s", path, code, body)
+	}
+	if err = json.Unmarshal(body, v); err != nil {
+		return kernel.Violationf("api-json", "GET %s: %v", path, err)
+	}
+	return nil
+}
+
+// orders returns the permutations of 0..n-1 in a fixed order.
+func orders(n int) (out [][]int) {
+	var rec func(cur []int, used uint)
+	rec = func(cur []int, used uint) {
+		if len(cur) == n {
+			out = append(out, slices.Clone(cur))
+			return
+		}
+		for i := 0; i < n; i++ {
+			if used&(1<<i) == 0 {
+				rec(append(cur, i), used|1<<i)
+			}
+		}
+	}
+	rec(nil, 0)
+	return out
+}
+
+// configPar sends the settings requests of op so that they are in flight
+// together: each is a task of the seeded cooperative scheduler, which
+// interleaves them at the lock boundaries of the handlers (and of the
+// configuration-modified callbacks they make).  Every request is a valid one
+// and must be accepted; the statement leaves open in which order requests in
+// flight together take effect, so the settings the system reports afterwards
+// must be those of ONE serial order of the requests.  The reference model goes
+// on from those: what "anonymisation is on" and "is on the ignore list" mean
+// to the user is what is reported, and the checks after this and the following
+// operations hold the effective behaviour (log file, log API, statistics)
+// against it.
+func (r *runner) configPar(op Op) error {
+	type answer struct {
+		code int
+		body []byte
+		err  error
+	}
+	ans := make([]answer, len(op.Reqs))
+	var names []string
+	var fns []func()
+	for j, q := range op.Reqs {
+		names = append(names, q.Kind)
+		fns = append(fns, func() { ans[j].code, ans[j].body, ans[j].err = r.sendCfg(q) })
+	}
+	res := sched.Run(op.Seed, op.Pct, names, fns)
+	r.c.Probes["sched_steps"] += res.Steps
+	r.c.Probes["sched_switches"] += res.Switches
+	if res.Deadlock != "" {
+		r.abandon = true
+		return kernel.Violationf("deadlock: "+res.Deadlock, "%d settings requests in flight together %v, schedule seed %d: every task waits for a lock:\n%s", len(op.Reqs), op.Reqs, op.Seed, res.Detail)
+	}
+	kernel.Wait()
+	r.c.Fault("settings_requests_in_flight_together")
+	for j, a := range ans {
+		if a.err != nil {
+			return a.err
+		}
+		if a.code != http.StatusOK {
+			return fmt.Errorf("harness: %s (in flight with others) -> %d %s", op.Reqs[j].Kind, a.code, a.body)
+		}
+		r.cfgDone(op.Reqs[j])
+	}
+	got, err := r.reported()
+	if err != nil {
+		return err
+	}
+	m := r.m
+	before := m.settings()
+	var tried []string
+	distinct := map[string]bool{}
+	for _, ord := range orders(len(op.Reqs)) {
+		s := before
+		for _, j := range ord {
+			s = s.after(op.Reqs[j])
+		}
+		distinct[s.String()] = true
+		if s.equal(got) {
+			r.c.Eventf("config_par %d requests (steps %d): reported settings %s = serial order %v", len(op.Reqs), res.Steps, got, ord)
+			if len(distinct) > 1 {
+				r.c.Probe("par_later_order_matched")
+			}
+			m.set(s)
+			return nil
+		}
+		tried = append(tried, fmt.Sprintf("%v -> %s", ord, s))
+	}
+	return kernel.Violationf("concurrent-config-no-serial-order", "%d settings requests in flight together %+v (schedule seed %d), all accepted; settings before: %s; the system now reports %s, which no serial order of the requests yields: %s", len(op.Reqs), op.Reqs, op.Seed, before, got, strings.Join(tried, "; "))
+}
+
 func (r *runner) apply(op Op) error {
 	m := r.m
 	switch op.Kind {
 	case "query":
 		return r.query(op)
-	case "log_config":
-		code, body, err := r.api("PUT", "/control/querylog/config/update", map[string]any{"enabled": true, "anonymize_client_ip": op.Anon, "interval": 86_400_000, "ignored": orEmpty(op.Ignored)})
+	case "log_config", "log_config_legacy", "stats_config":
+		q := CfgReq{Kind: op.Kind, Ignored: op.Ignored, Anon: op.Anon}
+		code, body, err := r.sendCfg(q)
 		if err != nil {
 			return err
 		}
 		if code != http.StatusOK {
-			return fmt.Errorf("harness: querylog config -> %d %s", code, body)
+			return fmt.Errorf("harness: %s -> %d %s", op.Kind, code, body)
 		}
-		m.logIgn.close()
-		m.logIgn, m.anon, m.logIgnList = newIgnoreSet(op.Ignored), op.Anon, op.Ignored
-		r.dirty = true
-		r.c.Fault("live_log_config_change")
-	case "log_config_legacy":
-		code, body, err := r.api("POST", "/control/querylog_config", map[string]any{"anonymize_client_ip": op.Anon})
-		if err != nil {
+		m.set(m.settings().after(q))
+		r.cfgDone(q)
+	case "config_par":
+		if err := r.configPar(op); err != nil {
 			return err
 		}
-		if code != http.StatusOK {
-			return fmt.Errorf("harness: legacy querylog config -> %d %s", code, body)
-		}
-		m.anon = op.Anon
-		r.dirty = true
-		r.c.Fault("live_log_config_change")
-		r.c.Probe("legacy_config_endpoint")
-	case "stats_config":
-		code, body, err := r.api("PUT", "/control/stats/config/update", map[string]any{"enabled": true, "interval": 86_400_000, "ignored": orEmpty(op.Ignored)})
-		if err != nil {
-			return err
-		}
-		if code != http.StatusOK {
-			return fmt.Errorf("harness: stats config -> %d %s", code, body)
-		}
-		m.statIgn.close()
-		m.statIgn, m.statIgnList = newIgnoreSet(op.Ignored), op.Ignored
-		r.dirty = true
-		r.c.Fault("live_stats_config_change")
 	case "client_flags":
 		if op.Client >= len(m.clients) {
 			return nil
@@ -1059,6 +1333,77 @@ func (r *runner) apply(op Op) error {
 		// home writes the configuration file after every client change.
 		r.writeConfig()
 		r.c.Fault("live_client_flag_change")
+	case "client_update":
+		if len(m.clients) == 0 {
+			r.c.Probe("client_op_without_clients")
+			return nil
+		}
+		idx := op.Client % len(m.clients)
+		cur := m.clients[idx]
+		nc := Client{Name: cur.Name, ID: cur.ID, IgnoreLog: op.Log, IgnoreStats: op.Stats}
+		if op.NewName != "" {
+			nc.Name = op.NewName
+		}
+		if op.NewID != "" {
+			nc.ID = op.NewID
+		}
+		p, err := toPersistent(nc)
+		if err != nil {
+			return err
+		}
+		// What home's handler of POST /control/clients/update does with the
+		// decoded record: an error is answered with 400 and nothing else happens.
+		if err = r.n.Clients.Update(context.Background(), cur.Name, p); err != nil {
+			r.c.Eventf("client_update %s{%s} -> %s{%s} log=%v stats=%v: refused", cur.Name, cur.ID, nc.Name, nc.ID, nc.IgnoreLog, nc.IgnoreStats)
+			r.c.Probe("client_change_refused")
+			if cur.IgnoreLog || cur.IgnoreStats {
+				r.c.Probe("client_change_refused_for_ignored_client")
+			}
+			break
+		}
+		r.c.Eventf("client_update %s{%s} -> %s{%s} log=%v stats=%v: accepted", cur.Name, cur.ID, nc.Name, nc.ID, nc.IgnoreLog, nc.IgnoreStats)
+		m.clients[idx] = nc
+		if nc.ID != cur.ID {
+			r.c.Probe("client_identifier_changed")
+		}
+		// home writes the configuration file after every client change.
+		r.writeConfig()
+		r.c.Fault("live_client_change")
+	case "client_add":
+		nc := Client{Name: op.NewName, ID: op.NewID, IgnoreLog: op.Log, IgnoreStats: op.Stats}
+		p, err := toPersistent(nc)
+		if err != nil {
+			return err
+		}
+		// POST /control/clients/add: as above.
+		if err = r.n.Clients.Add(context.Background(), p); err != nil {
+			r.c.Eventf("client_add %s{%s}: refused", nc.Name, nc.ID)
+			r.c.Probe("client_change_refused")
+			break
+		}
+		r.c.Eventf("client_add %s{%s} log=%v stats=%v: accepted", nc.Name, nc.ID, nc.IgnoreLog, nc.IgnoreStats)
+		m.clients = append(m.clients, nc)
+		r.writeConfig()
+		r.c.Fault("live_client_change")
+		r.c.Probe("client_added")
+	case "client_del":
+		if len(m.clients) == 0 {
+			r.c.Probe("client_op_without_clients")
+			return nil
+		}
+		idx := op.Client % len(m.clients)
+		cur := m.clients[idx]
+		// POST /control/clients/delete: "not found" is answered with 400.
+		if !r.n.Clients.RemoveByName(context.Background(), cur.Name) {
+			r.c.Eventf("client_del %s{%s}: refused", cur.Name, cur.ID)
+			r.c.Probe("client_change_refused")
+			break
+		}
+		r.c.Eventf("client_del %s{%s}: accepted", cur.Name, cur.ID)
+		m.clients = slices.Delete(slices.Clone(m.clients), idx, idx+1)
+		r.writeConfig()
+		r.c.Fault("live_client_change")
+		r.c.Probe("client_deleted")
 	case "flush":
 		if err := querylog.VerifFlush(context.Background(), r.ql); err != nil && !strings.Contains(err.Error(), "nothing to write") {
 			return fmt.Errorf("harness: flush: %w", err)
@@ -1100,6 +1445,7 @@ func toPersistent(c Client) (*client.Persistent, error) {
 func Run(t *testing.T, scAny any, c *kernel.Ctx) error {
 	sc := scAny.(*Scenario)
 	dnsnode.InitProcess()
+	sched.Init()
 	dir, err := kernel.TempDir("c08")
 	if err != nil {
 		return err
@@ -1148,7 +1494,7 @@ func Run(t *testing.T, scAny any, c *kernel.Ctx) error {
 var Prop = &kernel.Property{
 	ID:    "C08",
 	Level: "exploration",
-	Rule: "seeded histories (rapid): ignore lists for log and statistics (plain names, ||rules^, wildcards, the root |.^, mixed case), persistent clients identified by IP / CIDR / MAC (through a DHCP lease) / ClientID with ignore flags, anonymisation on/off, ANY-refusal on/off, memory sizes 1..50; ops = queries (any case, root, ANY, 8 sources incl. 4-in-6, ClientIDs over TLS) interleaved with live changes of both ignore lists, anonymisation (current and deprecated endpoint) and client flags, forced flushes, clock advances, pages of a listing a user scrolls through (limit 1..3, older_than cursor of the previous page, offset, search terms) and clean restarts from the configuration the components themselves last reported at their configuration-modified callback; after every op the raw log file, GET /control/querylog (without cursor, with a cursor newer than every record, or not at all), GET /control/stats and the settings reported by GET querylog/config, querylog_info and stats/config are compared with the reference model; " +
+	Rule: "seeded histories (rapid): ignore lists for log and statistics (plain names, ||rules^, wildcards, the root |.^, mixed case), persistent clients identified by IP / CIDR / MAC (through a DHCP lease) / ClientID with ignore flags, anonymisation on/off, ANY-refusal on/off, memory sizes 1..50; ops = queries (any case, root, ANY, 8 sources incl. 4-in-6, ClientIDs over TLS) interleaved with live changes of both ignore lists, anonymisation (current and deprecated endpoint) and client flags, changes of the persistent clients themselves (updates of name / identifier / flags, additions, deletions, among them ones the registry refuses because name or identifier clash with another client: the answer decides, a refused change leaves everything as it was), two or three settings requests in flight together (current and deprecated query-log endpoint, statistics; concurrent tasks interleaved at lock boundaries by a seeded cooperative scheduler on an instrumented scratch copy of the tree: the reported settings must be those of one serial order, and the model goes on from them), forced flushes, clock advances, pages of a listing a user scrolls through (limit 1..3, older_than cursor of the previous page, offset, search terms) and clean restarts from the configuration the components themselves last reported at their configuration-modified callback; after every op the raw log file, GET /control/querylog (without cursor, with a cursor newer than every record, or not at all), GET /control/stats, the settings reported by GET querylog/config, querylog_info and stats/config and the persistent clients the registry holds are compared with the reference model; " +
 		"non-trivial = at least one query was recorded and at least one was withheld from the log or the statistics; distinct = distinct scenario digests",
 	Gen: Gen,
 	New: func() any { return &Scenario{} },
@@ -1159,6 +1505,7 @@ var Prop = &kernel.Property{
 	Real:        []string{"internal/querylog (memory ring, file, search, HTTP handlers, config update)", "internal/stats + bbolt", "internal/dnsforward (processQueryLogsAndStats, anonymiser)", "internal/home callbacks findMultiple / shouldCountClient (via VerifClientFuncs)", "internal/client.Storage", "internal/aghnet (IgnoreEngine, IPMut)"},
 	Stub:        []string{"upstream resolver", "client sockets", "DHCP lease table (one static lease)", "query-log rotation and statistics flush loops (not started; the case stays inside one hour)", "the configuration file (kept in memory: what query log and statistics report through WriteDiskConfig whenever a configuration-modified callback fires, as home's configuration.write collects it; a restart starts from it)"},
 	Assumptions: []string{"ignore patterns are matched by urlfilter (trusted) against the lower-cased name", "a request is attributed to an ignored client by its real identity: ClientID > exact IP > most specific CIDR > MAC of the lease", "ANY queries under ANY-refusal may or may not be recorded (the statement does not say)"},
-	FaultKinds:  []string{"live_log_config_change", "live_stats_config_change", "live_client_flag_change", "flush_to_disk", "restart_from_saved_config"},
-	ProbeNames:  []string{"query_logged", "query_not_logged", "query_not_counted", "ignored_client_query", "ignored_client_query_anonymised", "legacy_config_endpoint", "page_first", "page_older", "page_older_nonempty", "obs_cursor_listing", "obs_skipped", "config_written", "restart_after_config_change"},
+	FaultKinds:  []string{"live_log_config_change", "live_stats_config_change", "live_client_flag_change", "live_client_change", "settings_requests_in_flight_together", "flush_to_disk", "restart_from_saved_config"},
+	ProbeNames:  []string{"query_logged", "query_not_logged", "query_not_counted", "ignored_client_query", "ignored_client_query_anonymised", "legacy_config_endpoint", "page_first", "page_older", "page_older_nonempty", "obs_cursor_listing", "obs_skipped", "config_written", "restart_after_config_change",
+		"client_change_refused", "client_change_refused_for_ignored_client", "client_identifier_changed", "client_added", "client_deleted", "client_op_without_clients", "par_later_order_matched", "sched_steps", "sched_switches"},
 }
